@@ -29,7 +29,7 @@ RULE = (
     "in [-2,2]^2 and [-1,1]^3 (plus [-3,3]^2 if time permits). Non-trivial = the supporting lines are coplanar "
     "(every 2-d pair; in 3-d: parallel, or meeting lines); distinct = hash of spec."
 )
-BUDGET = {"quick": {"cases": 24000, "seconds": 40}, "thorough": {"cases": 3000000, "seconds": 1100}}
+BUDGET = {"quick": {"cases": 40000, "seconds": 35}, "thorough": {"cases": 3000000, "seconds": 1100}}
 TECHNIQUE = ("property-based testing (Hypothesis) with constructed degeneracy classes, differential against exact "
              "rational arithmetic; exhaustive enumeration of small lattice boxes in the thorough tier")
 LEVEL_TEXT = ("Exploration (quick): tens of thousands of integer segment pairs per run with every degeneracy class "
@@ -49,7 +49,7 @@ REQUIRED = {
     "2d": 0.3, "3d": 0.3, "kind-none": 0.1, "kind-point": 0.1, "kind-segment": 0.05,
     "parallel-noncollinear": 0.02, "collinear-disjoint": 0.01, "collinear-touch": 0.01,
     "endpoint-touch": 0.03, "interior-cross": 0.03, "3d-skew": 0.02, "near-miss": 0.02,
-    "rational-point": 0.02,
+    "rational-point": 0.02, "3d-degenerate-projection": 0.03,
 }
 ENUMERATE_TIERS = ("thorough",)
 _enum = builtins.enumerate  # the contract's `enumerate` below shadows the builtin in this module
@@ -286,6 +286,8 @@ def check(s):
     else:
         if dim == 3:
             coplanar = eg.dot(eg.cross3(u, v), w) == 0
+            if any(x == 0 for x in eg.cross3(u, v)):
+                labels.append("3d-degenerate-projection")  # parallel projections on some coordinate plane
         if not coplanar:
             labels.append("3d-skew")
         elif exact[0] == "none":
